@@ -286,7 +286,11 @@ func init() {
 			}
 			b = nasTestpacket.GetRegistrationRequest(u8("regtype"), mobid(), nil, seccap, cap5gmm, optbytes("container"), nil)
 		case "GetAuthenticationResponse":
-			b = nasTestpacket.GetAuthenticationResponse(unhex(in, "res"), "")
+			if e := str(in, "eap_b64"); e != "" {
+				b = nasTestpacket.GetAuthenticationResponse(nil, e) // the EAP variant: base64 text of the EAP packet
+			} else {
+				b = nasTestpacket.GetAuthenticationResponse(unhex(in, "res"), "")
+			}
 		case "GetSecurityModeComplete":
 			b = nasTestpacket.GetSecurityModeComplete(optbytes("container"))
 		case "GetRegistrationComplete":
@@ -314,6 +318,8 @@ func init() {
 		default:
 			panic("harness: unknown constructor " + str(in, "name"))
 		}
-		return map[string]interface{}{"bytes": hx(b)}
+		out := map[string]interface{}{"bytes": hx(b)}
+		retain(out, "nasctor", b) // the message built by the previous call must still read the same after this one
+		return out
 	}
 }
